@@ -171,7 +171,9 @@ def anyXml (cfg : EncCfg) (v : Val) (rt et : Str) : Except ErrKind Str :=
         | [] => .ok []
         | x :: rest =>
           let one := match x with
-            | .map [(tag, val)] => marshal cfg tag val
+            | .map [(tag, val)] =>
+                -- repaired: an attribute key / the text key is not an element name
+                if tag = cfg.textK || isAttrK cfg tag then marshal cfg et x else marshal cfg tag val
             | x => marshal cfg et x
           match one with
           | .error e => .error e
